@@ -1,6 +1,7 @@
 import Aqv.Base.Proto
 import Aqv.Model.Rlp
 import Aqv.Model.RlpTyped
+import Aqv.Model.RlpStream
 open Aqv Aqv.Rlp Aqv.Proto
 
 /-- parse the rendering produced by `Item.render` (and by the Go harness): `s<hex>` | `[i,i,...]`. -/
@@ -218,6 +219,26 @@ def handle (l : String) : String :=
     | some it =>
       let m := "ok " ++ hexOrDash (enc it)
       verdict m go false "encoding-differs-from-spec"
+  | ["sdec", hex] =>
+    -- the Go-shaped Stream machine: NewStream(r, len) + Decode + second Decode = EOF, and DecodeBytes
+    match bytesOfHex hex with
+    | none => "bad-op\tspec-ok"
+    | some bs =>
+      let out (r : Except Aqv.RlpStream.SErr Item) : String :=
+        match r with
+        | .ok it => "ok " ++ it.render
+        | .error _ => "err"
+      let m1 := out (Aqv.RlpStream.decodeStream bs).1
+      let m2 := out (Aqv.RlpStream.decodeBytes bs).1
+      let m := if m1 == m2 then m1 else "stream-machine-entry-points-differ"
+      let specOk :=
+        if go.startsWith "ok " then
+          match parseItemStr (strDrop go 3) with
+          | some it => enc it == bs
+          | none => false
+        else if go == "err" then (match dec bs with | .ok _ => false | .error _ => true)
+        else false
+      verdict m go specOk "stream-decode-accepts-noncanonical-or-rejects-canonical"
   | ["tdec", td, hex] =>
     match parseTyStr td, bytesOfHex hex with
     | some ty, some bs =>
